@@ -198,6 +198,11 @@ def ctor_requests(r, group, n, dbg):
             out.append((gen.req(dbg, "o", group, "ctor_iso", 0, Rm[0:3] + [t[0]] + Rm[3:6] + [t[1]] + Rm[6:9] + [t[2]] + [0.0, 0.0, 0.0, 1.0]), ["ctor_iso"] + tr))
             Xv, tv = gen.element(r, group, norm="valid")
             out.append((gen.req(dbg, "o", group, "set_quat", 0, Xv + q), ["set_quat"] + tq))
+        elif group in ("SE_2_3", "SGal3"):
+            Rm, tr = _rotmat(r)
+            t = lin(3)
+            extra = lin(3) + ([lin(1)[0]] if group == "SGal3" else [])
+            out.append((gen.req(dbg, "o", group, "ctor_iso", 0, Rm[0:3] + [t[0]] + Rm[3:6] + [t[1]] + Rm[6:9] + [t[2]] + [0.0, 0.0, 0.0, 1.0] + extra), ["ctor_iso"] + tr))
     return out
 
 
